@@ -42,6 +42,17 @@ CHECKS["C17"] = dict(
          "with nondeterministic tie order, validated against the real package each run.",
     ref="DESIGN.md §3 C17", technique="symbolic execution (z3 proxies) of the real search/bounds code, exhaustive path exploration within bounds")
 
+CHECKS["C15"] = dict(
+    text="Bounded symbolic execution of the real min_weight_bipartite_matching and get_dtype: every integer weight is a symbolic "
+         "value over the documented range (split into non-negative and signed domains), booleans are symbolic bits, the "
+         "missing-pair pattern is enumerated per job; numpy's array conversion and scipy's solver are replaced by their contracts "
+         "(identity-or-OverflowError; any optimal assignment of the matrix actually passed). Oracle: one-to-one, only existing "
+         "pairs, true weights, no exception, maximum cardinality and minimum total on complete tables (all alternatives expanded); "
+         "get_dtype: returned dtype contains [lo,hi] for ALL integers in range (a z3 validity query over the integers, no size bound).",
+    note=TB + "Float tables are outside the check. The regions of the three listed findings (int64 fallback, sentinel overflow) "
+         "are excluded from the main jobs by the per-weight ranges and explored by dedicated region jobs.",
+    ref="DESIGN.md §3 C15", technique="symbolic execution (z3 proxies) of the real assignment routine with solver contract stub, exhaustive path exploration within bounds")
+
 NOT_APPLICABLE = {
     "C12": "every route from leaf text to output and every oracle (loaders) is C code (json.dumps, csv, libyaml, plistlib, "
            "html.escape) behind which a symbolic engine must realise the input; nothing symbolic is left to decide (DESIGN §3 C12)",
